@@ -29,10 +29,6 @@ Definition dom_obj (vs : list R) (o : obj R) : Prop :=
 Fixpoint Dom (l : list (obj R)) : Prop :=
   match l with [] => True | o :: older => dom_obj (rvals older) o /\ Dom older end.
 
-Lemma lookup_hd {A} (d x : A) tbl n : length tbl = n -> lookup d (x :: tbl) n = x.
-Proof. intros <-. apply lookup_cons_eq. Qed.
-Lemma lookup_tl {A} (d x : A) tbl n k : length tbl = n -> (k < n)%nat -> lookup d (x :: tbl) k = lookup d tbl k.
-Proof. intros <- H. apply lookup_cons_lt, H. Qed.
 Lemma len_rvals l : length (rvals l) = length l. Proof. apply length_vals. Qed.
 Lemma len_rdvals m l : length (rdvals m l) = length l. Proof. apply length_dvals. Qed.
 
